@@ -60,6 +60,7 @@ PROPS["C13"] = {
         H("k13_6_canon_k3", timeout=1500, mem_gb=12, unwind=5, unwindset=nat_rules(6, 17)),
         H("k13_6_canon_k4", tiers=("thorough",), timeout=7200, mem_gb=40, core=False, unwind=5, unwindset=nat_rules(7, 33)),
         H("k13_6_canon_k5", tiers=("thorough",), timeout=7200, mem_gb=40, core=False, unwind=5, unwindset=nat_rules(8, 33)),
+        H("k13_6_canon_k5_wide", tiers=("thorough",), timeout=7200, mem_gb=40, core=False, unwind=5, unwindset=nat_rules(8, 66)),
         H("k13_6_canon_k6", tiers=("thorough",), timeout=7200, mem_gb=40, core=False, unwind=5,
           unwindset=nat_rules(9, 33)),
     ],
